@@ -25,7 +25,11 @@ def init_inv(L, old, G, V):
 def flush_queue_inv(L, old, G):
     """while sensor.queue: every withheld reply goes out once, oldest first:
     sent0 ++ queue0 == sent ++ queue (decomposition form, no indices)."""
-    return frame_except(L.sensor, old.sensor, "queue") and (old.G.sent + old.sensor.queue == G.sent + L.sensor.queue)
+    return (
+        frame_except(L.sensor, old.sensor, "queue")
+        and (old.G.sent + old.sensor.queue == G.sent + L.sensor.queue)
+        and G.rawjobs + len(L.sensor.queue) == old.G.rawjobs + len(old.sensor.queue)
+    )
 
 
 def due(sensor, c, vt):
@@ -44,6 +48,8 @@ def desired_outer_inv(L, old, G, V):
     of the visited children, carrying the desired value; none for the others; replies stay a prefix."""
     return (
         is_prefix(old.G.sent, G.sent)
+        and len(G.sent) == len(old.G.sent) + (G.setjobs - old.G.setjobs)
+        and G.setjobs >= old.G.setjobs
         and forall(
             ("child", "vt"),
             lambda c, vt: G.setcount[c][vt] == (1 if (c in V and due(L.sensor, c, vt)) else 0)
@@ -56,6 +62,8 @@ def desired_inner_inv(L, old, G, V):
     """for value_type in child.values: as above, plus the visited value types of the current child"""
     return (
         is_prefix(old.G.sent, G.sent)
+        and len(G.sent) == len(old.G.sent) + (G.setjobs - old.G.setjobs)
+        and G.setjobs >= old.G.setjobs
         and forall(
             ("child", "vt"),
             lambda c, vt: G.setcount[c][vt]
@@ -69,8 +77,8 @@ def desired_inner_inv(L, old, G, V):
 
 
 LOOPS = {
-    ("mysensors.handler", "handle_smartsleep", 1): Loop(desired_outer_inv, ghosts=["sent", "setcount", "setpay"]),
-    ("mysensors.handler", "handle_smartsleep", 2): Loop(desired_inner_inv, ghosts=["sent", "setcount", "setpay"]),
+    ("mysensors.handler", "handle_smartsleep", 1): Loop(desired_outer_inv, ghosts=["sent", "setcount", "setpay", "setjobs"]),
+    ("mysensors.handler", "handle_smartsleep", 2): Loop(desired_inner_inv, ghosts=["sent", "setcount", "setpay", "setjobs"]),
     ("mysensors.sensor", "Sensor.init_smart_sleep_mode", 0): Loop(init_inv, modifies=["sensors.new_state"]),
-    ("mysensors.handler", "handle_smartsleep", 0): Loop(flush_queue_inv, modifies=["sensors.queue"], ghosts=["sent"]),
+    ("mysensors.handler", "handle_smartsleep", 0): Loop(flush_queue_inv, modifies=["sensors.queue"], ghosts=["sent", "rawjobs"]),
 }
